@@ -1,0 +1,18 @@
+//go:build verif
+
+// Contracts for this Ethereum-style light client (comment-only; read by /verif's tibcvc).
+package types
+
+//@ // C14: timestamps and the trusting period of this client are in seconds; Expired <==> timestamp + period lies before
+//@ // the block time in seconds (the convention of the client's own pruning code), Active otherwise; Unknown when the
+//@ // newest trusted state is missing or of the wrong type.
+//@ func (ClientState).Status(ctx, store, cdc) (result)
+//@   props C14
+//@   let c    = clientOf(store)
+//@   let o    = tibc[consState(c, self.Header.Height.RevisionNumber, self.Header.Height.RevisionHeight)]
+//@   let obj  = clienttypes.consDecode(val(o))
+//@   let ok   = present(o) && clienttypes.decodesCons(val(o)) && isa(obj, ConsensusState)
+//@   let ts   = as(obj, ConsensusState).Timestamp
+//@   ensures unknown: !ok ==> result == exported.Unknown
+//@   ensures expired: ok ==> (result == exported.Expired <==> ts + self.TrustingPeriod <u unix(now()))
+//@   ensures active:  ok ==> (result == exported.Active  <==> !(ts + self.TrustingPeriod <u unix(now())))
